@@ -725,7 +725,11 @@ struct FnEmitter {
             if (const Stmt *T = B->getTerminatorStmt()) {
                 blocks += ",\"term\":{\"k\":" + jstr(T->getStmtClassName());
                 if (auto *BOp = dyn_cast<BinaryOperator>(T)) blocks += ",\"op\":" + jstr(BOp->getOpcodeStr());
-                if (const Stmt *Cd = B->getTerminatorCondition(true)) blocks += ",\"c\":" + std::to_string(node(Cd));
+                // the *leaf* condition evaluated last in this block (for `a && b` the terminator condition would be the whole
+                // expression); switch statements have no last condition: use the switch operand
+                const Stmt *Cd = B->getLastCondition();
+                if (!Cd) Cd = B->getTerminatorCondition(true);
+                if (Cd) blocks += ",\"c\":" + std::to_string(node(Cd));
                 blocks += ",\"ln\":" + std::to_string(C.lineOf(T->getBeginLoc())) + "}";
                 if (B->getTerminator().isTemporaryDtorsBranch()) blocks += ",\"tdb\":1";
             }
